@@ -81,6 +81,8 @@ type PipeSpec struct {
 	IdleMs      int      `json:"idle_ms"` // quiescence = no event for this long and empty state table
 	TimeoutMs   int      `json:"timeout_ms"`
 	Footprint   bool     `json:"footprint"`
+	HTTPTimeout int      `json:"http_timeout"` // --http-timeout in seconds (0 = none)
+	DiskLowMs   int      `json:"disk_low_ms"`  // after this many ms the job volume counts as full (--min-space-required raised): the real disk watcher pauses the pipeline at its next tick
 }
 
 type PipeResult struct {
@@ -216,6 +218,9 @@ func runPipeChild(specPath string) {
 	c.RateLimitCapacity, c.RateLimitRefillRate, c.RateLimitCleanupFrequency = 150, 50, 5*time.Minute
 	c.MaxRetry, c.MaxRedirect, c.MaxHops = sp.MaxRetry, sp.MaxRedirect, sp.MaxHops
 	c.HTTPTimeout, c.HTTPReadDeadline = -1, 60
+	if sp.HTTPTimeout > 0 {
+		c.HTTPTimeout = sp.HTTPTimeout
+	}
 	c.NoStdoutLogging, c.NoStderrLogging, c.NoFileLogging = true, true, true
 	c.ExcludeHosts = []string{"127.0.0.9"}
 	c.UserAgent = "zv-e2e"
@@ -379,6 +384,29 @@ func runPipeChild(specPath string) {
 	started := make(chan struct{})
 	go func() { controler.Start(); close(started) }()
 
+	// "the job volume fills up": from DiskLowMs on every disk check of the REAL watcher (5 s tick) finds less free
+	// space than required, so the watcher itself pauses the pipeline; stop=diskpaused:<ms> stops that long afterwards
+	var holdQuiescence atomic.Bool
+	if sp.DiskLowMs > 0 {
+		holdQuiescence.Store(sp.StopAt != nil && sp.StopAt.Point == "diskpaused")
+		go func() {
+			time.Sleep(time.Duration(sp.DiskLowMs) * time.Millisecond)
+			config.Get().MinSpaceRequired = 1e9
+			evlog.write("disk.low")
+			for i := 0; i < 400 && !pause.IsPaused(); i++ {
+				time.Sleep(25 * time.Millisecond)
+			}
+			if pause.IsPaused() {
+				evlog.write("disk.paused")
+			}
+			if sp.StopAt != nil && sp.StopAt.Point == "diskpaused" {
+				time.Sleep(time.Duration(sp.StopAt.K) * time.Millisecond)
+				doStop()
+			}
+			holdQuiescence.Store(false)
+		}()
+	}
+
 	// ---- wait: expected number of finished seeds, or quiescence, or timeout
 	deadline := time.After(time.Duration(sp.TimeoutMs) * time.Millisecond)
 	idle := time.Duration(sp.IdleMs) * time.Millisecond
@@ -402,7 +430,7 @@ loop:
 			default:
 				continue
 			}
-			if res.StopCalled {
+			if res.StopCalled || holdQuiescence.Load() {
 				continue
 			}
 			quiet := time.Since(time.Unix(0, lastEvent.Load())) > idle && len(reactor.GetStateTable()) == 0 &&
@@ -478,6 +506,7 @@ type resource struct {
 	cfMitigate bool
 	truncate   bool // announce the full length, send half of the body, then drop the connection
 	drop       bool // accept the connection and close it without answering (every attempt fails at transport level)
+	stall      bool // accept the request and never answer (until the client gives up): only --http-timeout ends the fetch
 	links      []string
 }
 
@@ -523,6 +552,8 @@ func (s *e2eSite) lookup(url string) resource {
 	}
 	var res resource
 	switch {
+	case (c == 9 || c == 5) && s.mode == "stall":
+		return resource{stall: true}
 	case c <= 1:
 		return resource{status: 503, ctype: "text/plain", body: []byte("unavailable")} // for good
 	case c <= 4:
@@ -616,6 +647,15 @@ func (s *e2eSite) ServeHTTP(w http.ResponseWriter, req *http.Request) {
 	s.attempts[url]++
 	att := s.attempts[url]
 	s.mu.Unlock()
+	if res.stall {
+		evlog.write("origin", url, "0", "-", "0", fmt.Sprint(att))
+		lastEvent.Store(time.Now().UnixNano())
+		select {
+		case <-req.Context().Done():
+		case <-time.After(10 * time.Minute):
+		}
+		return
+	}
 	if res.drop {
 		evlog.write("origin", url, "0", "-", "0", fmt.Sprint(att))
 		lastEvent.Store(time.Now().UnixNano())
